@@ -421,6 +421,7 @@ var ruleK3 = &Rule{
 	Doc: "no pass-through without both equalities (SSA, interprocedural): in the handler built by BasicAuthMiddleware(login, pass) there is exactly one call of next.ServeHTTP. The facts known at that call — from the branch edges that dominate it and from the boolean results of helper functions (a helper returning true implies the comparisons that dominate its `return true`, with its parameters replaced by the arguments) — must include: " +
 		"element 0 of the decoded pair (the value split at the first colon) equals the constructor's first parameter, element 1 equals the second (string equality, no prefix / fold / length-only comparison), the scheme (element 0 of the header split at the blank) equals \"Basic\", and the header is not empty; every path from the handler's entry to a return passes either that call or an http.Error with status 401 / 400",
 	Run: func(c *Ctx) []Obl {
+		k3ctx = c
 		ctor := c.SSAFunc("reader/utils/middleware", "BasicAuthMiddleware")
 		if ctor == nil {
 			return []Obl{{Key: "reader/utils/middleware.BasicAuthMiddleware", Pos: "-", Status: Undecided, Msg: "anchor not found"}}
@@ -508,6 +509,16 @@ var ruleK3 = &Rule{
 				if isAuthErrorCall(call) {
 					errCalls = append(errCalls, call)
 					nErr++
+					// one refusal site fed from a table of refusals stands for as many answers as the table has rows
+					if _, isConst := call.Common().Args[2].(*ssa.Const); !isConst {
+						n := 0
+						for _, k := range c.constsCount(call.Common().Args[2], 0) {
+							n += k
+						}
+						if n > 1 {
+							nErr += n - 1
+						}
+					}
 				} else if sc := call.Common().StaticCallee(); sc != nil && isModuleFn(sc) {
 					// a helper that answers 401 / 400 on every one of its paths
 					n := 0
@@ -573,10 +584,25 @@ var ruleK3 = &Rule{
 	},
 }
 
+var k3ctx *Ctx // set by K3 for isAuthErrorCall (constant tables are resolved through the loaded program)
+
 func isAuthErrorCall(call *ssa.Call) bool {
 	if sc := call.Common().StaticCallee(); sc != nil && sc.String() == "net/http.Error" && len(call.Common().Args) == 3 {
 		if k, ok := call.Common().Args[2].(*ssa.Const); ok && k.Value != nil && (k.Value.ExactString() == "401" || k.Value.ExactString() == "400") {
 			return true
+		}
+		// the status read from a row of a constant table of refusals, every row of which answers 401 / 400
+		if k3ctx != nil {
+			if _, isConst := call.Common().Args[2].(*ssa.Const); !isConst {
+				vals := k3ctx.constsOf(call.Common().Args[2], 0)
+				okAll := len(vals) > 0
+				for _, v := range vals {
+					if v != "401" && v != "400" {
+						okAll = false
+					}
+				}
+				return okAll
+			}
 		}
 	}
 	return false
